@@ -299,7 +299,15 @@ func (e *didEnv) monC03UTF8() {
 // (valid, active) document carries the largest sequence number: deactivating it must leave a tombstone — the DID must
 // not become creatable again — or the genesis validation has to refuse such an entry.
 func (e *didEnv) monC05GenesisSeqWrap() {
-	e.s.Emit("mon.c05.genesis-seq-wrap", guard(func() string {
+	e.monC05SeqExhaustion("mon.c05.genesis-seq-wrap", 0)
+	// the same end of the sequence space reached by accepted updates: one and two operations before the last number
+	e.monC05SeqExhaustion("mon.c05.seq-exhaustion 1", 1)
+	e.monC05SeqExhaustion("mon.c05.seq-exhaustion 2", 2)
+}
+
+// monC05SeqExhaustion: genesis sequence 2^64-1-back, `back` accepted updates, then a deactivation
+func (e *didEnv) monC05SeqExhaustion(name string, back uint64) {
+	e.s.Emit(name, guard(func() string {
 		k, stranger := newDidKey("wrap-owner"), newDidKey("wrap-stranger")
 		did := didtypes.NewDID(k.pub)
 		vmID := did + "#key1"
@@ -309,7 +317,8 @@ func (e *didEnv) monC05GenesisSeqWrap() {
 				didtypes.WithAuthentications([]didtypes.VerificationRelationship{rel(vmID)}))
 			return &d
 		}
-		w := didtypes.NewDIDDocumentWithSeq(mkDoc(k), ^uint64(0))
+		seq := ^uint64(0) - back
+		w := didtypes.NewDIDDocumentWithSeq(mkDoc(k), seq)
 		gs := didtypes.GenesisState{Documents: map[string]*didtypes.DIDDocumentWithSeq{didtypes.GenesisDIDDocumentKey{DID: did}.Marshal(): &w}}
 		if err := gs.Validate(); err != nil {
 			return "pass #rejected-by-genesis-validation"
@@ -325,8 +334,15 @@ func (e *didEnv) monC05GenesisSeqWrap() {
 		c2.Begin(c2.Time)
 		ms := didkeeper.NewMsgServerImpl(c2.App.DidKeeper)
 		g := sdk.WrapSDKContext(c2.DeliverCtx())
-		sig, _ := didtypes.Sign(&didtypes.DIDDocument{Id: did}, ^uint64(0), k.priv)
 		from := sdk.AccAddress([]byte("relayer-1-address-xx")).String()
+		for ; seq != ^uint64(0); seq++ {
+			doc := mkDoc(k)
+			sig, _ := didtypes.Sign(doc, seq, k.priv)
+			if _, err := ms.UpdateDID(g, &didtypes.MsgUpdateDIDRequest{Did: did, Document: doc, VerificationMethodId: vmID, Signature: sig, FromAddress: from}); err != nil {
+				return "pass #update-refused"
+			}
+		}
+		sig, _ := didtypes.Sign(&didtypes.DIDDocument{Id: did}, seq, k.priv)
 		if _, err := ms.DeactivateDID(g, &didtypes.MsgDeactivateDIDRequest{Did: did, VerificationMethodId: vmID, Signature: sig, FromAddress: from}); err != nil {
 			return "pass #deactivation-refused"
 		}
